@@ -81,13 +81,21 @@ def run(ctx, replay):
         orbit = next((v for tag, v in rp["printed"] if tag == "ORBIT"), None)
         if orbit is None or len(strs2) != rp["distinct"]:
             raise vlib.Infra("string2 run printed %d rows for %d states, orbit=%s" % (len(strs2), rp["distinct"], orbit))
-        ctx.cov["states"] = ra["distinct"] + rs["distinct"] + rp["distinct"]
-        ctx.cov["transitions"] = ra["generated"] + rs["generated"] + rp["generated"]
+        # degenerate domains (bare ACE prefix, "xn---", ...): crash-freedom
+        rd = ctx.tlc_expect_ok("Address", None, name="mc-domain", workers=8, timeout=600,
+                               cfg_text=MC_CFG % dict(devs="", layer="domain", strlen=4 if thorough else 3,
+                                                      gen="TRUE", inv="DomainLaws Emit"))
+        doms = [v for tag, v in rd["printed"] if tag == "ROW"]
+        if len(doms) != rd["distinct"]:
+            raise vlib.Infra("domain run printed %d rows for %d states" % (len(doms), rd["distinct"]))
+        ctx.cov["states"] = ra["distinct"] + rs["distinct"] + rp["distinct"] + rd["distinct"]
+        ctx.cov["transitions"] = ra["generated"] + rs["generated"] + rp["generated"] + rd["generated"]
+        ctx.cov["states_domain"] = rd["distinct"]
         ctx.cov["states_string2"] = rp["distinct"]
         ctx.cov["states_algebra"] = ra["distinct"]
         ctx.cov["states_string"] = rs["distinct"]
         ctx.cov["string_len_model_checked"] = n_str
-        ctx.log("TLC exhaustive: algebra %d states (%d addresses, all pairs, class triples) %.1fs; "
+        ctx.log("TLC exhaustive: algebra %d states (%d addresses, pairs inside each identity class and with every canonical address, triples per class) %.1fs; "
                 "strings up to %d symbols %d states %.1fs" % (ra["distinct"], len(addrs), ra["wall"],
                                                               n_str, rs["distinct"], rs["wall"]))
         # non-vacuity: every deviation is caught by the model-level laws
@@ -174,6 +182,8 @@ def run(ctx, replay):
                 cl = rng.choice(big)
                 striples.append((rng.choice(cl), rng.choice(cl), rng.choice(cl)))
         cases = []
+        for d in doms:
+            cases.append({"kind": "D", "in": {"d": d}})
         for x, y in spairs:
             cases.append({"kind": "P2", "in": {"s": x, "t": y}})
         for x, y, z in striples:
@@ -264,6 +274,9 @@ def run(ctx, replay):
         if c["kind"] == "S":
             if len(c["in"]["s"]) >= 2:
                 distinct.add(json.dumps(c["in"]["s"]))
+        elif c["kind"] == "D":
+            if len(c["in"]["d"]) >= 1:
+                distinct.add(json.dumps(c["in"]["d"]))
         elif c["kind"] in ("P2", "P3"):
             if len(set(json.dumps(v) for v in c["in"].values())) > 1:
                 distinct.add(json.dumps(c["in"], sort_keys=True))
@@ -275,12 +288,14 @@ def run(ctx, replay):
                        "A2 = ordered pairs inside one identity class (all in thorough, seeded sample in quick) plus "
                        "random cross pairs; A3 = seeded triples (3/4 inside one class); S = every symbol string up "
                        "to length 3 (quick) / 4 (thorough) printed by TLC plus TLC -simulate strings up to length 6; "
+                       "D = every domain up to 3 (quick) / 4 (thorough) symbols over the degenerate-A-label alphabet, tried bare, "
+                       "behind a plain and behind a quoted local part (crash-freedom); "
                        "P2/P3 = pairs/triples of arbitrary strings up to 2 symbols over the comparison alphabet "
                        "(all look-alike pairs, all pairs up to 1 symbol, the rest sampled in quick / all in thorough); "
                        "non-trivial = an address row with at least one non-canonical spelling, a string row of "
                        "length >= 2; distinct = distinct inputs")
     picks = []
-    for kind in ("A1", "A2", "A3", "S", "P2", "P3"):
+    for kind in ("A1", "A2", "A3", "S", "P2", "P3", "D"):
         evs = [e for e in events if e["e"] == kind and e["t"] < 9000000]
         if evs:
             picks.append(evs[len(evs) // 3])
